@@ -113,16 +113,13 @@ def index_to_loc(body: str, position: int) -> Tuple[int, int]:
     if position > len(body) or position < 0:
         raise IndexError(position)
 
-    lines, cols = 0, 0
-    for offset, char in enumerate(body):
-        if offset == position:
-            return (lines + 1, cols + 1)
-        elif char == "\n":
-            lines += 1
-            cols = 0
-        else:
-            cols += 1
-    return (lines + 1, cols + 1)
+    line, line_start = 1, 0
+    for match in LINE_SEPARATOR.finditer(body):
+        if match.end() > position:
+            break
+        line += 1
+        line_start = match.end()
+    return (line, position - line_start + 1)
 
 
 def loc_to_index(body: str, loc: Tuple[int, int]) -> int:
